@@ -129,10 +129,10 @@ def check_C10(tier, only):
                   ['relations decided: A_ig(T,V,N) = sum_i A_ig^{pure i}(T,V,N_i) (ideal mixing) and A_ig(T, lam V, lam N) = lam A_ig (extensivity) for Joback and DIPPR models'],
                   ['IdealGas::ideal_gas_helmholtz_energy<Sym>', 'Joback::ln_lambda3', 'Dippr::ln_lambda3', 'Components::subset'],
                   {'components': 2})
-    hs = C10_EK if tier == 'thorough' else ['c10_entropy', 'c10_chemical_potential_1', 'c10_pressure_selector', 'c10_ideal_pressure_all_inputs']
+    hs = C10_EK if tier == 'thorough' else ['c10_entropy']
     cov['E-K'] = ek_part(out, 'C10', tier, [('ext', h) for h in hs], only,
                          ['C10-a: with PolyEos as Residual + IdealGas (polynomial ideal part overriding the provided ln-based method): f(Total) = f(IdealGas) + f(Residual) exactly and each part is its closed form, '
-                          'for one getter per derivative order arm of get_or_compute_derivative; p_ig = rho R T bitwise for all f64 inputs accepted by new_nvt'], nsym=2)
+                          'for one getter per derivative order arm of get_or_compute_derivative (quick: the first-derivative arm, entropy); p_ig = rho R T and Total = IdealGas + Residual for the pressure family (thorough)'], nsym=2, timeout=10800 if tier == 'thorough' else 3000)
     out.coverage = cov
     return out.finish()
 
@@ -148,11 +148,11 @@ def check_C01(tier, only):
                    'C01-c: derivative parts computed through Dual/HyperDual/Dual3<Sym> have the homogeneity degree implied by first-order homogeneity of A (p, mu: 0; dp/dV, dmu/dN: -1; S: 1; ...)'],
                   ['residual_helmholtz_energy_contributions<Sym>, <Dual<Sym,f64>>, <HyperDual<Sym,f64>>, <Dual3<Sym,f64>>'],
                   {'components': 2})
-    hs = C01_EK if tier == 'thorough' else ['c01_pressure_res', 'c01_dp_dt_res', 'c01_dmu_dni_res', 'c01_residual_entropy']
+    hs = C01_EK if tier == 'thorough' else ['c01_pressure_res', 'c01_dp_dt_res', 'c01_residual_entropy']
     ekc = ek_part(out, 'C01', tier, [('ext', h) for h in hs], only,
                   ['C01-a: verification model PolyEos (polynomial A of degree <= 3 in V,T,N0,N1; %s leading coefficients symbolic in [-3,3], the rest generic-position primes), state at powers of two: '
-                   'every getter must return exactly the closed-form partial derivative (sign, seeding, cache key)' % ('4' if tier == 'thorough' else '2')],
-                  nsym=4 if tier == 'thorough' else 2)
+                   'every getter must return exactly the closed-form partial derivative (sign, seeding, cache key)' % ('4' if tier == 'thorough' else '1')],
+                  nsym=4 if tier == 'thorough' else 1, timeout=10800 if tier == 'thorough' else 2400)
     cov['E-K'] = ekc
     out.coverage = cov
     return out.finish()
@@ -583,13 +583,13 @@ def check_C16(tier, only):
 
 
 
-C10_EK = ['c10_helmholtz_energy', 'c10_entropy', 'c10_ds_dt', 'c10_d2s_dt2', 'c10_chemical_potential_1', 'c10_dmu_dt_0', 'c10_pressure_selector', 'c10_ideal_pressure_all_inputs']
+C10_EK = ['c10_helmholtz_energy', 'c10_entropy', 'c10_ds_dt', 'c10_d2s_dt2', 'c10_chemical_potential_1', 'c10_dmu_dt_0', 'c10_pressure_selector']
 
 
 def check_C11(tier, only):
     out = Outcome('C11', tier, 'model_checking')
     inc = ['c11_cache_history_1', 'c11_cache_history_2', 'c11_cache_history_2_reach', 'c11_cache_history_clone_2']
-    ext = ['c11_h_dpdni_then_mu', 'c11_h_dmudni_diag_then_mixed', 'c11_h_d2pdv2_then_dpdv', 'c11_h_dmudt_then_entropy']
+    ext = []   # getter-level history harnesses cost > 45 min each on this machine: thorough tier only
     if tier == 'thorough':
         inc += ['c11_cache_history_3', 'c11_cache_history_3_reach']
         ext = ['c11_h_dpdv_then_pressure', 'c11_h_dpdni_then_mu', 'c11_h_dpdni_then_pressure', 'c11_h_dmudt_then_entropy', 'c11_h_dmudni_then_mu', 'c11_h_d2pdv2_then_dpdv', 'c11_h_d2sdt2_then_dsdt',
